@@ -28,6 +28,10 @@ Repository.display_status = lambda self, message: None
 Repository.display_danger = lambda self, message: None
 
 FAST_KDF = {'n': 4}
+# the default scrypt work factor (n = 2**20, seconds per derivation) is lowered in the harness process so that keys can also be created
+# WITHOUT explicit KDF settings (the default code path of init / add-key); nothing else about the KDF changes
+from replicat.utils import adapters as _adapters  # noqa: E402
+_adapters.scrypt.__init__.__kwdefaults__['n'] = 4
 
 
 class Captured:
@@ -53,6 +57,7 @@ def run(coro, *, debug=False):
 class Outcome:
     def __init__(self, ok, value=None, exc=None, out=''):
         self.ok, self.value, self.exc, self.out = ok, value, exc, out
+        self.hung = False
 
     @property
     def etype(self):
@@ -71,16 +76,40 @@ def _nocapture():
     yield c
 
 
-def attempt(coro):
-    """run a command; exceptions (including simulated kills) become an Outcome"""
-    with (_nocapture() if getattr(_NOCAP, 'on', False) else capture()) as c:
+COMMAND_TIMEOUT = float(os.environ.get('RV_COMMAND_TIMEOUT', '30'))
+
+
+class Hung(Exception):
+    """the command did not finish within the watchdog time"""
+
+
+def attempt(coro, timeout=None):
+    """run a command; exceptions (including simulated kills) become an Outcome. The command runs under a watchdog: a command that does
+    not finish is reported as Outcome(ok=False, exc=Hung) instead of blocking the check."""
+    timeout = COMMAND_TIMEOUT if timeout is None else timeout
+    nocap = getattr(_NOCAP, 'on', False)
+    box = {}
+
+    def body():
+        _NOCAP.on = True       # stdout is captured once, by the caller's context below
         try:
-            v = asyncio.run(coro)
+            box['v'] = asyncio.run(coro)
         except BaseException as e:  # noqa: BLE001 - Killed is a BaseException on purpose
-            if isinstance(e, (KeyboardInterrupt, SystemExit)):
-                raise
-            return Outcome(False, exc=e, out=c.out.getvalue())
-    return Outcome(True, value=v, out=c.out.getvalue())
+            box['e'] = e
+    with (_nocapture() if nocap else capture()) as c:
+        th = threading.Thread(target=body, daemon=True)
+        th.start()
+        th.join(timeout)
+        out = c.out.getvalue()
+    if th.is_alive():
+        o = Outcome(False, exc=Hung('command still running after %.0f s' % timeout), out=out)
+        o.hung = True
+        return o
+    if 'e' in box:
+        if isinstance(box['e'], (KeyboardInterrupt, SystemExit)):
+            raise box['e']
+        return Outcome(False, exc=box['e'], out=out)
+    return Outcome(True, value=box.get('v'), out=out)
 
 
 def settings(*, encrypted=True, cipher=None, hashing=None, min_length=None, max_length=None, kdf=None):
